@@ -109,6 +109,8 @@ constexpr int kKeys    = 2048;
 constexpr int kKeyLen  = 240;
 constexpr int kOps     = 1024;
 constexpr int kOpLen   = 72;
+constexpr int kSits    = 8192;
+constexpr int kSitLen  = 120;
 
 struct KeyEnt {
     std::uint64_t hash;
@@ -120,6 +122,12 @@ struct OpEnt {
     std::uint64_t n;
     std::uint32_t samples;
     char name[kOpLen];
+};
+
+struct SitEnt {
+    std::uint64_t hash;
+    std::uint64_t n;
+    char name[kSitLen];
 };
 
 struct Shared {
@@ -147,6 +155,7 @@ struct Shared {
     // tables
     KeyEnt keys[kKeys];
     OpEnt ops[kOps];
+    SitEnt sits[kSits];
     // distinct set
     std::uint64_t dcap; // power of two
     std::uint64_t dn;
@@ -276,6 +285,22 @@ inline void crumb(char const* subject, char const* op, char const* sit, char con
     std::vsnprintf(sh->args, sizeof sh->args, fmt, ap);
     va_end(ap);
     sh->step++;
+    { // situation hit counter (evidence: which (operation, situation) pairs were reached, how often)
+        std::uint64_t h = (fnv(sit, fnv(op)) * 0x9E3779B97F4A7C15ull) | 1;
+        for (int i = 0; i < 16; ++i) {
+            SitEnt& e = sh->sits[(h + (std::uint64_t)i) % kSits];
+            if (e.hash == h) {
+                e.n++;
+                break;
+            }
+            if (e.hash == 0) {
+                e.hash = h;
+                e.n    = 1;
+                std::snprintf(e.name, kSitLen, "%s | %s", op, sit);
+                break;
+            }
+        }
+    }
     if (g().verbose) {
         std::fprintf(stderr, "[case %" PRIu64 " step %u] %s | %s | %s | %s\n", sh->case_id, sh->step, sh->subject, sh->op,
             sh->sit, sh->args);
@@ -944,6 +969,12 @@ inline int run_main(int argc, char** argv, char const* prop, char const* harness
         if (sh->ops[i].hash && sh->ops[i].n) {
             Json j;
             j.str("k", "op").str("label", sh->ops[i].name).num("n", sh->ops[i].n).emit();
+        }
+    }
+    for (int i = 0; i < kSits; ++i) {
+        if (sh->sits[i].hash) {
+            Json j;
+            j.str("k", "sit").str("label", sh->sits[i].name).num("n", sh->sits[i].n).emit();
         }
     }
     // distinct hashes -> binary side file
